@@ -5,6 +5,7 @@ package core
 import (
 	"fmt"
 	"go/ast"
+	"go/constant"
 	"go/token"
 	"go/types"
 	"os"
@@ -108,7 +109,14 @@ func Load(dir string, cfg Config) (*Prog, error) {
 	for fn := range ssautil.AllFunctions(prog) {
 		if InModule(fn) {
 			unspillDeferredResults(fn)
+			canonicalArithmetic(fn)
+			if os.Getenv("VERIF_NO_EXITS") == "" {
+				materialiseExits(fn)
+			}
 		}
+	}
+	if len(ExitErrors) > 0 {
+		return nil, fmt.Errorf("exit materialisation: %s", strings.Join(ExitErrors, "; "))
 	}
 	for path, pk := range p.Pkgs {
 		sp := prog.Package(pk.Types)
@@ -384,6 +392,59 @@ func unspillDeferredResults(fn *ssa.Function) {
 			}
 			if val != nil {
 				ret.Results[k] = val
+			}
+		}
+	}
+}
+
+// canonicalArithmetic writes shifts by a constant and masks with 2^k-1 of index and size arithmetic as the
+// multiplication, division and remainder they stand for (x<<k = x*2^k, x>>k = x/2^k, x&(2^k-1) = x%2^k; for signed
+// operands these are the sizes, counts and indices of the module, which are never negative), so that the rules'
+// linear and polynomial forms read `len(x)>>1`, `j>>6` and `j&63` like `len(x)/2`, `j/64` and `j%64`. The limb
+// arithmetic of the two field packages is left as written: there the shifts are the subject of the rules.
+func canonicalArithmetic(fn *ssa.Function) {
+	if fn.Pkg == nil || os.Getenv("VERIF_NO_CANON") != "" {
+		return
+	}
+	path := fn.Pkg.Pkg.Path()
+	if strings.HasSuffix(path, "/fr") || strings.HasSuffix(path, "/fp") {
+		return
+	}
+	for _, b := range fn.Blocks {
+		for _, in := range b.Instrs {
+			bo, ok := in.(*ssa.BinOp)
+			if !ok {
+				continue
+			}
+			bt, isB := bo.X.Type().Underlying().(*types.Basic)
+			if !isB || bt.Info()&types.IsInteger == 0 {
+				continue
+			}
+			k, isK := bo.Y.(*ssa.Const)
+			if !isK || k.Value == nil {
+				continue
+			}
+			kv, exact := constant.Int64Val(constant.ToInt(k.Value))
+			if !exact {
+				continue
+			}
+			switch bo.Op {
+			case token.SHL, token.SHR:
+				if kv < 1 || kv > 30 {
+					continue
+				}
+				if bo.Op == token.SHL {
+					bo.Op = token.MUL
+				} else {
+					bo.Op = token.QUO
+				}
+				bo.Y = ssa.NewConst(constant.MakeInt64(1<<uint(kv)), bo.X.Type())
+			case token.AND:
+				if kv < 1 || kv > 1<<30 || (kv+1)&kv != 0 {
+					continue
+				}
+				bo.Op = token.REM
+				bo.Y = ssa.NewConst(constant.MakeInt64(kv+1), bo.X.Type())
 			}
 		}
 	}
